@@ -773,6 +773,21 @@ package rueidis
 //@   assert [C03 sent-to-another-node-only-after-moved] at Do#2: mode == RedirectMove && arg2 == cmd
 //@   assert [C03 sent-with-asking-only-after-ask] at DoMulti: mode == RedirectAsk && len(arg2) == 2 && arg2[0] == cmds.AskingCmd && arg2[1] == cmd
 
+// the synchronous path reports a written command's failure as that attempt's own I/O error (or the caller's deadline),
+// never as a substitute value that upper layers treat as "was not sent"
+//@ func pipe.syncDo #c03
+//@   modifies *
+//@   ensures [C03 the-error-of-a-written-command-is-the-attempts-own-io-error] resp.err == nil || resp.err == returned(flushCmd) || resp.err == second(returned(syncRead)) || resp.err == context.DeadlineExceeded
+//@ func pipe.syncDoMulti #c03
+//@   modifies *
+//@   assert [C03 the-error-of-a-written-batch-is-the-attempts-own-io-error] at NewErrorResult: arg0 == returned(Flush) || arg0 == second(returned(syncRead)) || arg0 == context.DeadlineExceeded
+
+// a whole MULTI..EXEC block — which contains commands that are not retryable — is queued again only when MULTI itself was
+// answered +OK by the server (a transport failure carries no such payload): then a refused member means EXEC aborted and nothing ran
+//@ func clusterClient.doresultfn #c03
+//@   modifies *
+//@   assert [C03 a-transaction-is-requeued-whole-only-when-multi-was-answered-by-the-server] at Lock#1: 0 <= mi && mi < len(resps) && resps[mi].val.string() == "OK" && isMulti(commands[mi]) && ei < len(commands) && isExec(commands[ei])
+
 //@ func dedicatedClusterClient.Do #c03
 //@   modifies *
 //@   loop 0: repeat-only-if [C03 sent-again-only-after-an-approved-retry-of-a-retryable-command] c.retry && cmd.IsRetryable() && returned(WaitOrSkipRetry)
